@@ -64,7 +64,7 @@ theorem failure_causes_fail (s : S) (a : Nat) (hst : isStarting s a = true) :
     unfold failStart
     simp only
     rw [getElem?_setActor]
-    have hlen : a < (release (killSubtree s.actors.length s (childrenOf s a)) a).actors.length := by
+    have hlen : a < (release (killSubtree (s.actors.length + 1) s [a]) a).actors.length := by
       rw [((frame_killSubtree s _ _).trans (frame_release _ a)).len]
       exact (List.getElem?_eq_some_iff.mp hx).1
     rw [List.getElem?_eq_getElem hlen]
@@ -238,6 +238,25 @@ example : childrenOf (run (exampleTL.take 4)) 0 = [1] := by decide
 example : (run exampleTL).ports = [.senderError] ∧ (run exampleTL).events = [] ∧ (run exampleTL).names = [] := by
   decide
 
+/-- **Fuel sufficiency of `terminate`** (`Spawn.killSubtree`, the worklist of `ActorCell::terminate`):
+the fuel `failStart` / `exitRunning` pass — number of actors + 1 — always suffices: ANY additional fuel
+leaves the result unchanged, in every state (also with `selflink` cycles). So every cell below a failed
+start (or an exiting actor) is killed and detached, not only those reached before a bound. -/
+theorem terminate_fuel_suffices (s : S) (a k : Nat) :
+    killSubtree (s.actors.length + 1 + k) s [a] = killSubtree (s.actors.length + 1) s [a] :=
+  killSubtree_fuel_add k (s.actors.length + 1) s [a] (by have := linkedCount_le s; simp; omega)
+
+/-- the general form: `#linked cells + |worklist|` pops are enough from any state and worklist -/
+theorem terminate_fuel_bound (f : Nat) (s : S) (l : List Nat) (h : linkedCount s + l.length ≤ f) :
+    killSubtree (f + 1) s l = killSubtree f s l := killSubtree_fuel f s l h
+
+/-- non-vacuity: a cycle made by `selflink` (0 is linked under its own child 1) plus two more children;
+the failed start of 0 takes everybody down and every actor ends unlinked -/
+example :
+    let s := run [.begin none none, .spawnChild 0, .selflink 0 1, .spawnChild 0, .spawnChild 0, .cut 0]
+    s.actors.map (fun x => (x.phase, x.linked)) =
+      [(.stopped, false), (.stopped, false), (.stopped, false), (.stopped, false)] := by decide
+
 /-! ### Round 4 — the cleanup of a failed spawn, component by component (`Model/SpawnClean.lean`)
 
 One spawn followed through `ActorCell::new`, `start` and `ActorLifecycleGuard::cleanup(None)` in
@@ -373,6 +392,8 @@ end C08
 #print axioms C08.src_start_single_await
 #print axioms C08.src_local_start_order
 #print axioms C08.src_cleanup_order
+#print axioms C08.terminate_fuel_suffices
+#print axioms C08.terminate_fuel_bound
 #print axioms C08.failed_spawn_cleanup_leaves_nothing
 #print axioms C08.spawnclean_ok_reachable
 #print axioms C08.cleanup_runs_to_completion
